@@ -181,6 +181,7 @@ func oneChain(f ek.Fork, r *rand.Rand, nBlocks, txPerBlock int, tr *tl.Trace, su
 	for i := 0; i < 4; i++ {
 		contracts = append(contracts, common.BytesToAddress([]byte{0xc0, byte(i + 1)}))
 	}
+	feeder := common.BytesToAddress([]byte{0xc0, 0xfe})
 	targets := append([]common.Address{}, contracts...)
 	targets = append(targets, senders[0].addr, senders[1].addr, coinbase, ek.NoSuch, common.BytesToAddress([]byte{2}), common.BytesToAddress([]byte{4}))
 	alloc := types.GenesisAlloc{}
@@ -190,6 +191,7 @@ func oneChain(f ek.Fork, r *rand.Rand, nBlocks, txPerBlock int, tr *tl.Trace, su
 	for _, c := range contracts {
 		alloc[c] = types.Account{Balance: big.NewInt(int64(1000 + r.Intn(5000))), Code: ek.LedgerContract(r, targets, 1), Nonce: 1}
 	}
+	alloc[feeder] = types.Account{Balance: big.NewInt(5000), Code: ek.PhoenixFeeder(coinbase, 5), Nonce: 1}
 	if f.Idx >= ek.Cancun {
 		alloc[params.BeaconRootsAddress] = types.Account{Code: params.BeaconRootsCode, Nonce: 1}
 	}
@@ -222,6 +224,9 @@ func oneChain(f ek.Fork, r *rand.Rand, nBlocks, txPerBlock int, tr *tl.Trace, su
 			var to *common.Address
 			var data []byte
 			switch c := r.Intn(10); {
+			case k == 0 && i == 0: // once per chain: ether sent to an account destroyed in the same transaction
+				t := feeder
+				to = &t
 			case c < 6:
 				t := contracts[r.Intn(len(contracts))]
 				to = &t
